@@ -7,7 +7,7 @@ import itertools
 
 from model import dense
 
-RANKS = ["K", "M", "N", "J", "P", "Q"]
+RANKS = ["K", "M", "N", "J", "P", "Q", "I"]   # "I" on purpose: the compiler names temporary occupancy ranks <root><n>I
 INPUTS = ["A", "B", "C", "D", "E", "F", "G", "H", "L", "R", "S", "W", "X", "Y"]
 SIZES = [1, 2, 3, 5, 7]
 
@@ -354,7 +354,45 @@ def occ_stack(rng, root, holders, extent, allow_shape=True):
     return dirs, syms
 
 
+def gen_flatten2(rng):
+    """Two flattenings of one tensor (e.g. A[I,J,K,L] with (I,K) and (J,L)), optionally with a
+    second operand and an occupancy split of one flattened rank."""
+    ranks = rng.sample(RANKS, 4)
+    a_ranks = _perm(rng, ranks)
+    decl = {"A": a_ranks}
+    facs = ["A" + _access(a_ranks)]
+    if rng.random() < 0.5:
+        b_ranks = _perm(rng, _subset(rng, ranks, 0.5)) or [ranks[0]]
+        decl["B"] = b_ranks
+        facs.append("B" + _access(b_ranks))
+        rng.shuffle(facs)
+    out_ranks = _perm(rng, _subset(rng, ranks, 0.6))
+    items = list(decl.items())
+    items.insert(rng.randrange(len(items) + 1), ("Z", out_ranks))
+    decl = dict(items)
+    spec = {"decl": decl, "exprs": ["Z" + _access(out_ranks) + " = " + " * ".join(facs)], "rank_order": None,
+            "partitioning": None, "loop_order": None, "spacetime": None, "arch": None, "bindings": None, "format": None}
+    pr = _perm(rng, ranks)
+    g1, g2 = pr[:2], pr[2:]
+    part = {"(%s, %s)" % tuple(g1): ["flatten()"], "(%s, %s)" % tuple(g2): ["flatten()"]}
+    f1, f2 = "".join(g1), "".join(g2)
+    groups = [[f1], [f2]]
+    if rng.random() < 0.4:
+        part[f1] = ["uniform_occupancy(A.%d)" % rng.choice([1, 2, 3])]
+        groups[0] = [f1 + "1", f1 + "0"]
+    spec["partitioning"] = {"Z": part}
+    if rng.random() < 0.75:
+        spec["loop_order"] = {"Z": loop_order_over(rng, groups, "ordered")}
+    extents = gen_extents(rng, spec, 5)
+    meta = {"ranks": ranks, "out_only": [], "kind": "times", "nterms": 1, "scalars": [], "part": part, "syms": {},
+            "lo_mode": "ordered" if spec["loop_order"] else "default", "extents": extents, "omode": "flatten2",
+            "flat": {"tensor": "A", "ranks": g1 + g2, "under_shape": None, "nocc": 0}, "nlevels": len(part), "npart": len(part)}
+    return spec, meta
+
+
 def gen_occ(rng):
+    if rng.random() < 0.12:
+        return gen_flatten2(rng)
     spec, meta = gen_plain(rng, max_ranks=4, allow_take=False, allow_out_only=False, product_only=True,
                            min_ranks=2)
     ranks = meta["ranks"]
